@@ -45,6 +45,8 @@ def in_domain(acc, u, info):
         acc.count("invalid_scheme_skipped")
         return False
     ht = info.get("host_text")
+    if ht is not None and info.get("authority_text") == "":
+        ht = None   # '//' followed by nothing: an empty authority is no authority, not an invalid host
     if ht is not None:
         if info.get("unbracketed") and ":" in ht and not ht.startswith("["):
             ht = "[" + ht + "]"  # build(host=)/with_host() take IPv6 literals without brackets
@@ -103,7 +105,7 @@ def case_route(acc, rname, w):
     return route_case(acc, rname, w)
 
 
-HOSTS = ["h.com", "H.CoM", "h.com.", "xn--n3h.com", "☃.com", "ABC.☃.com", "é.com", "É.COM", "straße.de", "a_b.com",
+HOSTS = ["h.com", "H.CoM", "h.com.", "xn--n3h.com", "XN--N3H.com", "www.Xn--Mnchen-3ya.de", "☃.com", "ABC.☃.com", "é.com", "É.COM", "straße.de", "a_b.com",
          "a!$&'()*+,;=b", "a%41b", "127.0.0.1", "127.000.0.1", "1.2.3", "999.1.1.1", "[::1]", "[0:0:0:0:0:0:0:1]",
          "[2001:DB8::FF]", "[::ffff:1.2.3.4]", "[fe80::1%eth0]", "[fe80::1%25eth0]", "[fe80::1%Eth0]", "[v1.x]", "[vF.a:b]",
          "-", "a-", "a..b", "localhost", "0", "1e3", "a~b"]
@@ -193,7 +195,7 @@ def plan(ctx):
     from vlib import routes
     quick = ctx.tier == "quick"
     spaces = [("F1", 1), ("X2", 2)] + ([("K3", 4)] if quick else [("F2", 6), ("X3", 48)])
-    tasks = sweep.plan_routes("checks.C03", routes.NAMES, spaces)
+    tasks = sweep.plan_routes("checks.C03", routes.NAMES, spaces) + sweep.plan_routes("checks.C03", routes.NAMES_SUB, [("F1", 1), ("X2", 2)])
     q, _ = impl.discover_quoter_configs(ctx.build["pkg"])
     rq = [n for n, kw in q.items() if kw.get("requote", True)]
     qspaces = [("F2", 2), ("X3", 8)] + ([] if quick else [("K4", 16)])
